@@ -12,6 +12,9 @@
 (*  - the exact ray-casting point classification agrees with the half-space test of convex bodies and with the   *)
 (*    union-of-boxes definition of the L-shape on a whole grid of quarter-lattice points, and gives the declared  *)
 (*    class of every field observer on every variant (ObsOK).                                                    *)
+(*  - flat bodies (family "aniso"): the bodies stretched by diag(k,k,1), diag(k,1,k), diag(1,k,k) for k up to 10^4,  *)
+(*    every face in turn as the first face, flipped or not, as one and as two disconnected parts; the state keeps *)
+(*    the unstretched mesh and the stretch, the ground truth is invariant under the stretch (StretchInvariant).   *)
 (* The distinct states are dumped and every one of them is built as a real magpylib TriangularMesh               *)
 (* (harness/drivers/mesh.py).                                                                                    *)
 EXTENDS Mesh, TLC
@@ -23,9 +26,17 @@ CONSTANTS Bases,          \* subset of BaseNames
           TetraDerivAll,  \* derive from every tetrahedron variant (else only from those with the original vertex numbering)
           DelAll,         \* delete every single face and pair of faces (else faces {1} and {1,2})
           GridMargin,     \* the point classification is compared on all quarter-lattice points of the bounding box widened by this
-          PairGrid        \* second box of a pair ranges over all lattice boxes in (0..PairGrid)^3; first box is [1,3]^3
-VARIABLES m, kind, base, n, last
-vars == <<m, kind, base, n, last>>
+          PairGrid,       \* second box of a pair ranges over all lattice boxes in (0..PairGrid)^3; first box is [1,3]^3
+          AnisoBases,     \* bodies that are also explored flat: stretched by diag(k,k,1), diag(k,1,k), diag(1,k,k)
+          AnisoFactors,   \* the factors k for bodies with at most 8 faces (extent ratios 1:k, up to the body's own proportions)
+          AnisoBigFactors,\* the factors k for bodies with more faces
+          AnisoPairs,     \* flip pairs of faces as well as single faces before a face is brought to the front
+          AnisoRewind,    \* also rewind the first face cyclically (all six ways to write the seed face)
+          AnisoDupFaces   \* flat bodies with at most this many faces are also explored as two disconnected parts
+VARIABLES m, kind, base, n, last,
+          st,             \* stretch of the concrete mesh: the real object has the vertices Stretch(m, st).v; m itself stays small
+          fam             \* "std": the transformation palette;  "aniso": every face in turn as the first face, flat bodies
+vars == <<m, kind, base, n, last, st, fam>>
 
 \* ---------------------------------------------------------------- argument domains
 AdjSwap(k, i) == [j \in 1..k |-> IF j = i THEN i + 1 ELSE IF j = i + 1 THEN i ELSE j]
@@ -38,6 +49,12 @@ Singles(k) == {{i} : i \in 1..k}
 Pairs(k) == {{i, j} : i, j \in 1..k} \ Singles(k)
 FlipSets(k) == IF k <= FlipAllUpTo THEN (SUBSET (1..k)) \ {{}} ELSE Singles(k) \cup Pairs(k)
 DelSets(k) == IF DelAll THEN Singles(k) \cup Pairs(k) ELSE {{1}, {1, 2}}
+ToFront(k, j) == [i \in 1..k |-> IF i = 1 THEN j ELSE IF i = j THEN 1 ELSE i]      \* old face j becomes the first face
+Unit == <<1, 1, 1>>
+Flat(k) == {<<k, k, 1>>, <<k, 1, k>>, <<1, k, k>>}
+Stretches(b) == UNION {Flat(k) : k \in (IF Len(BaseMesh(b).f) > 8 THEN AnisoBigFactors ELSE AnisoFactors)}
+                \cup (IF b \in Bases THEN {} ELSE {Unit})          \* a body without a "std" instance is also explored unstretched
+AnisoFlipSets(k) == Singles(k) \cup (IF AnisoPairs THEN Pairs(k) ELSE {})
 FarShift == <<7, 0, 0>>                       \* farther than any base mesh is wide: the copy is disjoint
 \* second parts that pierce the base body: a lattice box chosen so that some edge goes through the interior of a face
 \* (KindTruth proves it), and for the box also a displaced copy of itself
@@ -53,28 +70,30 @@ Ivs == {iv \in (0..PairGrid) \X (0..PairGrid) : iv[1] < iv[2]}
 MeshOf(b) == IF b = "cube" THEN Cube ELSE BaseMesh(b)
 
 \* ---------------------------------------------------------------- behaviours
-Init == /\ base \in Bases \cup (IF PairGrid > 0 THEN {"cube"} ELSE {})
+Init == /\ \/ fam = "std" /\ base \in Bases \cup (IF PairGrid > 0 THEN {"cube"} ELSE {}) /\ st = Unit
+           \/ fam = "aniso" /\ base \in AnisoBases /\ st \in Stretches(base)
         /\ m = MeshOf(base)
         /\ kind = IF base = "cube" THEN "pairbase" ELSE "closed"
         /\ n = 0
         /\ last = [op |-> "init", arg |-> <<>>]
 
-Step(m2, k2, n2, op, arg) == m' = m2 /\ kind' = k2 /\ n' = n2 /\ base' = base /\ last' = [op |-> op, arg |-> arg]
+Step(m2, k2, n2, op, arg) == /\ m' = m2 /\ kind' = k2 /\ n' = n2 /\ base' = base /\ last' = [op |-> op, arg |-> arg]
+                             /\ st' = st /\ fam' = fam
 
 TetraStep ==
-  /\ kind = "closed" /\ base = "tetra"
+  /\ kind = "closed" /\ base = "tetra" /\ fam = "std"
   /\ \/ \E i \in 1..3 : Step(PermuteFaces(m, AdjSwap(4, i)), "closed", 0, "permute", AdjSwap(4, i))
      \/ \E i \in 1..3 : Step(RenumberVertices(m, AdjSwap(4, i)), "closed", 0, "renumber", AdjSwap(4, i))
      \/ \E i \in 1..4 : Step(FlipFaces(m, {i}), "closed", 0, "flip", {i})
      \/ TetraRewind /\ \E i \in 1..4 : Step(RewindCyclic(m, {i}), "closed", 0, "rewind", {i})
 BigStep ==
-  /\ kind = "closed" /\ base # "tetra" /\ n < Depth
+  /\ kind = "closed" /\ base # "tetra" /\ n < Depth /\ fam = "std"
   /\ \/ n = 0 /\ \E S \in FlipSets(Len(m.f)) : Step(FlipFaces(m, S), "closed", n + 1, "flip", S)
      \/ \E p \in PermPalette(Len(m.f)) : Step(PermuteFaces(m, p), "closed", n + 1, "permute", p)
      \/ \E p \in PermPalette(Len(m.v)) : Step(RenumberVertices(m, p), "closed", n + 1, "renumber", p)
      \/ \E S \in Singles(Len(m.f)) : Step(RewindCyclic(m, S), "closed", n + 1, "rewind", S)
      \/ Step(RewindCyclic(m, 1..Len(m.f)), "closed", n + 1, "rewind", <<"all">>)
-MayDerive == kind = "closed" /\ (IF base = "tetra" THEN (TetraDerivAll \/ m.v = Tetra.v) ELSE n <= DerivDepth)
+MayDerive == kind = "closed" /\ fam = "std" /\ (IF base = "tetra" THEN (TetraDerivAll \/ m.v = Tetra.v) ELSE n <= DerivDepth)
 Derive ==
   /\ MayDerive
   /\ \/ \E S \in DelSets(Len(m.f)) : Step(DeleteFaces(m, S), "open", n, "delete", S)
@@ -85,14 +104,34 @@ PairStep ==
   /\ \E ix \in Ivs, iy \in Ivs, iz \in Ivs :
        LET lo == <<ix[1], iy[1], iz[1]>>  hi == <<ix[2], iy[2], iz[2]>>
        IN Step(Join(m, BoxMesh(lo, hi)), "pair", n, "pair", <<lo, hi>>)
-Next == TetraStep \/ BigStep \/ Derive \/ PairStep
+\* flat bodies: flip one face (or two), then bring every face in turn to the front (the first face is the seed of the
+\* implementation's reorientation), optionally rewind it; every such variant also with a disjoint second copy
+AnisoStep ==
+  /\ kind = "closed" /\ fam = "aniso"
+  /\ \/ n = 0 /\ \E S \in AnisoFlipSets(Len(m.f)) : Step(FlipFaces(m, S), "closed", 1, "flip", S)
+     \/ n <= 1 /\ \E j \in 2..Len(m.f) : Step(PermuteFaces(m, ToFront(Len(m.f), j)), "closed", 2, "permute", ToFront(Len(m.f), j))
+     \/ AnisoRewind /\ n \in {2, 3} /\ Step(RewindCyclic(m, {1}), "closed", n + 1, "rewind", {1})
+     \/ Len(m.f) <= AnisoDupFaces /\ Step(DuplicateShifted(m, FarShift), "dup", n, "dup", FarShift)
+Next == TetraStep \/ BigStep \/ Derive \/ PairStep \/ AnisoStep
 Spec == Init /\ [][Next]_vars
-View == <<m, kind, base, n>>
+View == <<m, kind, base, n, st, fam>>
 
 \* ---------------------------------------------------------------- what is checked
 TypeOK == /\ kind \in {"closed", "open", "dup", "inter", "pair", "pairbase"}
           /\ WellFormed(m.v, m.f)
           /\ (kind # "pair" => DistinctPoints(m.v))          \* two boxes of a pair may have a corner in common
+          /\ fam \in {"std", "aniso"} /\ (fam = "std" => st = Unit)
+          /\ StretchExact(st, Stretch(m, st).v) /\ Destretch(st, Stretch(m, st).v) = m.v
+
+\* the ground truth of the stretched mesh is that of the unstretched one (evaluated where the determinants fit in 32 bits)
+MaxStretch == Max2(Max2(st[1], st[2]), st[3])
+StretchInvariant == fam = "aniso" /\ st # Unit /\ MaxStretch <= 10 =>
+  LET W == Stretch(m, st).v  V == m.v  F == m.f IN
+  /\ WellFormed(W, F)
+  /\ SelfIntersecting(W, F) = SelfIntersecting(V, F)
+  /\ \A C \in EdgeComponents(F) : Sgn(Vol6(W, F, C)) = Sgn(Vol6(V, F, C)) /\ Vol6(W, F, C) = st[1] * st[2] * st[3] * Vol6(V, F, C)
+  /\ Outward(W, F) = Outward(V, F)
+  /\ RefOrient(W, F) = RefOrient(V, F)
 
 \* every state has the status its history promises
 KindTruth ==
@@ -146,7 +185,7 @@ GridOK(b) ==
     /\ c # "undecided"
     /\ (Convex(b) => c = ConvexClass(V, F, p))
     /\ (b = "lshape" => (LClass(p) \in {"in", "out"} => c = LClass(p)) /\ (c = "on" => LClass(p) = "on"))
-ObsOK == last.op = "init" /\ base # "cube" =>
+ObsOK == last.op = "init" /\ base # "cube" /\ (fam = "std" \/ (base \notin Bases /\ st = Unit)) =>
   /\ \A p \in ObsIn(base) : PointClass(ScaleV(m.v), m.f, p) = "in"
   /\ \A p \in ObsOut(base) : PointClass(ScaleV(m.v), m.f, p) = "out"
   /\ ObsIn(base) \cap ObsOut(base) = {} /\ ObsIn(base) # {} /\ ObsOut(base) # {}
